@@ -1154,7 +1154,7 @@ package mqtt
 //@ requires cl != nil && s != nil && cl.nsent == 0 && !cl.connacked && !cl.registered && !cl.authok
 // C13: the client is entered into the registry (where publishers find it) only once its CONNACK has been attempted, only if an
 // authentication hook admitted it, and nothing but that CONNACK has been written to it before
-//@ callsite mqtt.Clients.Add C13-nothing-but-the-connack-precedes-registration: arg1 == cl && cl.nsent <= 1 && (cl.nsent == 1 ==> cl.sentpk[0].FixedHeader.Type == Connack)
+//@ callsite mqtt.Clients.Add C13-nothing-but-the-connack-precedes-registration: arg1 == cl && cl.nsent <= 1 && (err == nil ==> cl.nsent == 1 && cl.sentpk[0].FixedHeader.Type == Connack)
 //@ callsite mqtt.Clients.Add C13-only-an-admitted-client-is-registered: cl.authok
 // C13 / C09: unacknowledged messages are resent only after the CONNACK went out, and only when a session is present
 //@ callsite mqtt.Client.ResendInflightMessages C09-resend-follows-a-successful-connack: arg0 == cl && cl.connacked && cl.nsent == 1 && sessionPresent
